@@ -233,7 +233,8 @@ func CheckHistory(h History) *kit.Violation {
 			if strings.HasPrefix(cur.Header.Get("Content-Type"), "application/x-alt") {
 				other = "application/json"
 			}
-			if cur.Body != nil && cur.Header.Get("Content-Type") != "" {
+			if cur.Body != nil {
+				// also when the request came without the header: what ContentType stored then is the default media type
 				cur.Header.Set("Content-Type", other)
 				swapped = true
 			}
@@ -347,6 +348,7 @@ var histOps = []string{"RouteInfo", "ContentType", "ContentType", "ResponseForma
 
 func GenHistory(t *rapid.T) History {
 	h := History{Req: oneDamage(genReq(t))}
+	h.Req.CtxDone = rapid.SampledFrom([]string{"", "", "", "", "cancelled", "expired"}).Draw(t, "request-context")
 	n := rapid.IntRange(2, 12).Draw(t, "nops")
 	for i := 0; i < n; i++ {
 		h.Ops = append(h.Ops, rapid.SampledFrom(histOps).Draw(t, "op"))
@@ -411,6 +413,12 @@ func ClassifyHistory(h History) (bool, []string) {
 		}
 	}
 	labels["cred "+h.Req.Cred] = true
+	if h.Req.CtxDone != "" {
+		labels["request context "+h.Req.CtxDone] = true
+		if seen["BindAndValidate"] > 1 && h.Req.Body != "ok" {
+			labels["invalid binding outcome asked for again under an ended context"] = true
+		}
+	}
 	if strings.HasPrefix(h.Req.Cred, "zero-") && seen["Authorize"] > 1 {
 		labels["Authorize repeated with a zero-valued principal"] = true
 	}
